@@ -21,9 +21,10 @@ ID_NONE = z3.Const("id_none", IdS)
 
 REF_FIELDS = ("_parent", "_first_child", "_last_child", "_previous_sibling", "_next_sibling", "_doc", "_region", "_body")
 ID_FIELDS = ("_id",)
-OPAQUE_FIELDS = ("_styles", "_sets", "_begin", "_end", "_space", "_lang", "_text", "_initial_values", "_active_area",
+OPAQUE_FIELDS = ("_sets", "_begin", "_end", "_space", "_lang", "_text", "_active_area",
                  "_cell_resolution", "_px_resolution", "_dar")
 MAP_FIELDS = ("_regions",)           # doc -> (IdS -> Ref)
+DICT_FIELDS = ("_styles", "_initial_values")   # object -> (key id -> Obj), obj_none for absent keys; keys are concrete python objects
 
 
 class Heap:
@@ -44,6 +45,8 @@ class Heap:
       arrays[f] = z3.Array(f"{tag}{f}", Ref, Obj)
     for f in MAP_FIELDS:
       arrays[f] = z3.Array(f"{tag}{f}", Ref, z3.ArraySort(IdS, Ref))
+    for f in DICT_FIELDS:
+      arrays[f] = z3.Array(f"{tag}{f}", Ref, z3.ArraySort(z3.IntSort(), Obj))
     return Heap(arrays, z3.Function("kind", Ref, z3.IntSort()))
 
   def copy(self):
@@ -95,8 +98,27 @@ def hctx() -> HeapCtx:
   return cur().heapctx
 
 
+OBJ_NONE = z3.Const("obj_none", Obj)
+_ISINST = z3.Function("isinstance_of", Obj, z3.IntSort(), z3.BoolSort())    # uninterpreted: python isinstance(value, class #k)
+_ISOBJ = z3.Function("is_object", Obj, z3.IntSort(), z3.BoolSort())         # uninterpreted: value is/== the constant #k
+_KEYS = {}          # python object -> small int (class ids, constant ids, dict keys); names kept for reports
+KEY_NAMES = {}
+
+
+def key_id(obj) -> int:
+  k = _KEYS.get(id(obj))
+  if k is None:
+    k = len(_KEYS) + 1
+    _KEYS[id(obj)] = k
+    KEY_NAMES[k] = getattr(obj, "__qualname__", None) or repr(obj)
+    _KEYS[("keep", k)] = obj
+  return k
+
+
 class SymOpaque(Proxy):
-  """a python value the encoding does not look into (it can only be stored, copied and compared for identity)"""
+  """a python value the encoding does not look into: it can be stored, copied, compared for identity, and asked
+  `isinstance(value, C)` / `value == constant`, which are uninterpreted predicates of the value (so that what a guard tested
+  is known on the path that stores the value)"""
   __slots__ = ("term",)
 
   def __init__(self, term):
@@ -105,7 +127,30 @@ class SymOpaque(Proxy):
   def vc_is(self, other):
     if isinstance(other, SymOpaque):
       return SymBool(self.term == other.term)
-    raise Unsupported("identity test on an opaque value")
+    if other is None:
+      return SymBool(self.term == OBJ_NONE)
+    if isinstance(other, Proxy):
+      raise Unsupported("identity test between an opaque value and a symbolic value")
+    return SymBool(z3.And(self.term != OBJ_NONE, _ISOBJ(self.term, key_id(other))))
+
+  def __eq__(self, other):
+    return self.vc_is(other)
+
+  def __ne__(self, other):
+    return ~self.vc_is(other)
+
+  def __hash__(self):
+    raise Unsupported("hash of an opaque value")
+
+  def vc_isinstance(self, classes):
+    ts = []
+    for c in classes:
+      c = core._unshim(c)
+      if c is type(None):
+        ts.append(self.term == OBJ_NONE)
+      else:
+        ts.append(z3.And(self.term != OBJ_NONE, _ISINST(self.term, key_id(c))))
+    return SymBool(z3.Or(*ts)) if ts else False
 
   def __bool__(self):
     raise Unsupported("truth value of an opaque value")
@@ -180,6 +225,57 @@ class SymMap(Proxy):
     if SymBool(z3.Select(self._arr(), self._key(k)) == NULL).__bool__():
       raise KeyError("region id")
     h.store(self.field, self.owner, z3.Store(self._arr(), self._key(k), NULL))
+
+
+class SymDict(Proxy):
+  """a dict field keyed by concrete python objects (style property classes) holding opaque values"""
+  __slots__ = ("owner", "field")
+
+  def __init__(self, owner, field):
+    object.__setattr__(self, "owner", owner)
+    object.__setattr__(self, "field", field)
+
+  def _arr(self):
+    return hctx().heap.sel(self.field, self.owner)
+
+  def _key(self, k):
+    if isinstance(k, Proxy):
+      raise Unsupported("symbolic dict key")
+    return z3.IntVal(key_id(k))
+
+  def _val(self, v):
+    if v is None:
+      return OBJ_NONE
+    if isinstance(v, SymOpaque):
+      return v.term
+    raise Unsupported("non-opaque value stored in a symbolic dict")
+
+  def __contains__(self, k):
+    return SymBool(z3.Select(self._arr(), self._key(k)) != OBJ_NONE).__bool__()
+
+  def get(self, k, default=None):
+    if default is not None:
+      raise Unsupported("dict.get with default on a symbolic dict")
+    return SymOpaque(z3.Select(self._arr(), self._key(k)))
+
+  def __getitem__(self, k):
+    v = z3.Select(self._arr(), self._key(k))
+    if SymBool(v == OBJ_NONE).__bool__():
+      raise KeyError(k)
+    return SymOpaque(v)
+
+  def __setitem__(self, k, v):
+    hctx().heap.store(self.field, self.owner, z3.Store(self._arr(), self._key(k), self._val(v)))
+
+  def pop(self, k, *default):
+    v = z3.Select(self._arr(), self._key(k))
+    if not default and SymBool(v == OBJ_NONE).__bool__():
+      raise KeyError(k)
+    hctx().heap.store(self.field, self.owner, z3.Store(self._arr(), self._key(k), OBJ_NONE))
+    return SymOpaque(v)
+
+  def __delitem__(self, k):
+    self.pop(k)
 
 
 class SymChildren(Proxy):
@@ -266,6 +362,9 @@ class SymRef(Proxy):
     if name in MAP_FIELDS:
       self._nonnull(name)
       return SymMap(self.term, name)
+    if name in DICT_FIELDS:
+      self._nonnull(name)
+      return SymDict(self.term, name)
     if name.startswith("__") and name.endswith("__"):
       raise AttributeError(name)
     self._nonnull(name)
